@@ -540,7 +540,10 @@ def build_graph(g, real_nodes=None):
     kw = {}
     if g.get("edges") is not None:
         kw["edges"] = [tuple(e) if len(e) != 3 else ((e[0], e[1], e[2]) if e[2] is not None else (e[0], e[1])) for e in g["edges"]]
-    return Graph(nodes, name=g.get("name"), strict_types=g.get("strict", False), **kw)
+    # the node collection may be any iterable: a list, a tuple, or a one-shot generator (deterministic choice per graph)
+    how = len(canon(g.get("nodes") and [n.get("name") for n in g["nodes"]])) % 3
+    coll = nodes if how == 0 else tuple(nodes) if how == 1 else (n for n in nodes)
+    return Graph(coll, name=g.get("name"), strict_types=g.get("strict", False), **kw)
 
 
 def construct(g):
